@@ -16,11 +16,11 @@ from templates import LOSSY_OR_REORDERING, inlined, pat_matches
 SEM = "nitrogql_semantics::"
 EXDEF = "nitrogql_ast::operation::ExecutableDefinition"
 
-TESTS = ("contains",)                              # membership test on the visited collection
+TESTS = ("contains", "contains_key")               # membership test on the visited collection
 MARKS = ("insert", "push", "push_back")            # marking a file as visited
 SHRINKS = {"remove", "clear", "retain", "drain", "take", "pop", "pop_front", "pop_back", "pop_first", "pop_last", "truncate",
            "swap_remove", "split_off", "extract_if", "dedup", "retain_mut"}
-READS = {"contains", "len", "is_empty", "iter", "get", "extend", "reserve", "clone", "is_subset", "is_superset", "first", "last"}
+READS = {"contains", "contains_key", "get", "keys", "len", "is_empty", "iter", "get", "extend", "reserve", "clone", "is_subset", "is_superset", "first", "last"}
 # in-place operations on a Vec that drop or reorder elements (iterator adaptors do not modify the list they read)
 IN_PLACE = {"sort", "sort_by", "sort_by_key", "sort_unstable", "sort_unstable_by", "sort_unstable_by_key", "sort_by_cached_key",
             "reverse", "swap", "swap_remove", "retain", "retain_mut", "truncate", "drain", "remove", "pop", "clear", "rotate_left",
@@ -191,7 +191,8 @@ _ANCHORS = {}
 
 
 STD_COLLECTIONS = ("std::collections::hash::set::HashSet<", "alloc::collections::btree::set::BTreeSet<", "alloc::vec::Vec<",
-                   "alloc::collections::vec_deque::VecDeque<", "indexmap::set::IndexSet<")
+                   "alloc::collections::vec_deque::VecDeque<", "indexmap::set::IndexSet<", "std::collections::hash::map::HashMap<",
+                   "alloc::collections::btree::map::BTreeMap<")
 
 
 def _elem(t):
@@ -245,6 +246,10 @@ def anchors(P):
         t = rec.sig_inputs[i] if i < len(rec.sig_inputs) else ""
         if t.startswith("&mut ") and p.get("k") == "Binding" and A.pv.params.get(p.get("local")):
             shared.append((peel_ty(t).strip(), ("param", A.pv.params[p["local"]])))
+            st = P.adts.get(peel_ty(t).strip().split("<")[0])
+            if st is not None and st.kind == "Struct" and st.path.startswith(SEM):      # a state struct handed down by `&mut`
+                for fname, ft in st.field_types().items():
+                    shared.append((peel_ty(ft).strip(), ("field", st.path, fname)))
     self_adt = P.adts.get(rec.self_adt) if rec.self_adt else None
     if self_adt is not None and self_adt.kind == "Struct":
         for fname, ft in self_adt.field_types().items():
@@ -256,6 +261,8 @@ def anchors(P):
     colls |= {"[%s]" % _elem(t) for t in colls if t.startswith(("alloc::vec::Vec<", "alloc::collections::vec_deque::VecDeque<"))}
     A.vts = {peel_ty(n.get("recv_ty")).strip() for n in A.T.walk() if n.get("k") == "MethodCall" and n["method"] in TESTS + MARKS
              and peel_ty(n.get("recv_ty")).strip() in colls}
+    scalar = {t for t in A.vts if not _elem(t).startswith("(") and not t.startswith("[(")}
+    A.vts = scalar or A.vts     # a set of (file, name) pairs is a per-definition record, not the set of visited files
     if not A.vts:
         raise AnchorMissing("visited collection (a shared std collection that %s tests / extends): none among %s" % (rec.path, sorted(colls)))
     A.key_types = {_elem(t) if "<" in t else t.strip("[]") for t in A.vts}
@@ -627,6 +634,56 @@ def slice_nodes(T, pv, idx, stop=None):
     return out
 
 
+def null_outcome(e):
+    """does an arm body stand for "not selected": `false`, `None`, nothing, or leaving (`continue`/`return`)"""
+    e = strip(e)
+    while e is not None and e.get("k") == "BlockExpr":
+        if diverges(e):
+            return True
+        if "tail" not in e["b"]:
+            return True
+        e = strip(e["b"]["tail"])
+    if e is None or diverges(e):
+        return True
+    if lit_value(e) is False:
+        return True
+    if e.get("k") == "Tup" and not e.get("es"):
+        return True
+    return e.get("k") == "Path" and norm(e.get("def") or "").endswith("option::Option::None")
+
+
+def fragment_tests(nodes):
+    """How the tests on ExecutableDefinition among `nodes` (the slice of an append) treat the variants:
+    ("only",) some test accepts FragmentDefinition and rejects every other variant; ("leaky", variants) tests exist, none rejects
+    the others, and one explicitly yields a computed value for a named other variant; ("unknown",) tests exist but are not
+    understood; ("none",) no pattern for FragmentDefinition at all"""
+    def is_exdef(e):
+        return peel_ty((e or {}).get("t")).strip().split("<")[0] == EXDEF
+    tests = []      # (pattern of the accepting side or None, [(pattern, body)] of the other sides)
+    for n in nodes:
+        k = n.get("k")
+        if k == "Match" and n.get("src") == "Normal" and is_exdef(n["scrut"]):
+            tests.append([(a["pat"], a["body"]) for a in n["arms"]])
+        elif k == "If" and strip(n["cond"]).get("k") == "LetExpr" and is_exdef(strip(n["cond"])["init"]):
+            tests.append([(strip(n["cond"])["pat"], n["then"]), (None, n.get("else"))])
+        elif k == "Let" and "els" in n and is_exdef(n.get("init")):
+            tests.append([(n["pat"], {"k": "Lit", "v": True}), (None, n["els"])])
+    if "FragmentDefinition" not in pattern_variants(nodes, "ExecutableDefinition"):
+        return ("none",)
+    leaky = set()
+    for arms in tests:
+        frag = [b for p, b in arms if p is not None and "FragmentDefinition" in pattern_variants(p, "ExecutableDefinition")]
+        others = [(p, b) for p, b in arms if p is None or "FragmentDefinition" not in pattern_variants(p, "ExecutableDefinition")]
+        if frag and all(null_outcome(b) for p, b in others):
+            return ("only",)
+        for p, b in others:
+            if p is not None and not null_outcome(b):
+                leaky |= pattern_variants(p, "ExecutableDefinition")
+    if leaky:
+        return ("leaky", sorted(leaky))
+    return ("unknown",) if tests else ("only",)
+
+
 def diag_exists(P, rec, variant):
     """is there (still) an enum of the semantics crate with a variant of this name"""
     return any(variant in a.variant_names() for p, a in P.adts.items() if p.startswith(SEM) and a.kind == "Enum")
@@ -688,10 +745,23 @@ def r13c(P, R):
                            "list anywhere in the traversal)" % v, loc=loc)
             # only fragments are imported: every append sits behind a test for ExecutableDefinition::FragmentDefinition
             if inside:
-                bare = [j for j in inside if "FragmentDefinition" not in pattern_variants(slice_nodes(T, pv, j), "ExecutableDefinition")]
-                R.check("R13-c", "fragments-only:%s" % v, not bare, "only fragment definitions are imported",
-                        "the %s arm does not restrict imports to fragment definitions: nothing the appended values derive from, and no "
-                        "condition around the append, tests for ExecutableDefinition::FragmentDefinition" % v, loc=loc)
+                verdicts = [fragment_tests(slice_nodes(T, pv, j)) for j in inside]
+                bare = [x for x in verdicts if x[0] == "none"]
+                leaky = [x for x in verdicts if x[0] == "leaky"]
+                if bare:
+                    R.violated("R13-c", "fragments-only:%s" % v,
+                               "the %s arm does not restrict imports to fragment definitions: nothing the appended values derive from, and no "
+                               "condition around the append, tests for ExecutableDefinition::FragmentDefinition" % v, loc=loc)
+                elif leaky:
+                    R.violated("R13-c", "fragments-only:%s" % v,
+                               "the %s arm selects what it imports through a test on ExecutableDefinition that also lets %s through (that arm "
+                               "yields a value computed from the definition instead of rejecting it): an operation of the imported file "
+                               "can be imported, and a name that only an operation carries is not reported as missing" % (v, leaky[0][1]), loc=loc)
+                elif any(x[0] == "unknown" for x in verdicts):
+                    R.undecided("R13-c", "fragments-only:%s" % v, "the tests on ExecutableDefinition around the append of the %s arm are not "
+                                "recognised as accepting fragments only" % v, loc=loc)
+                else:
+                    R.holds("R13-c", "fragments-only:%s" % v, "only fragment definitions are imported", loc=loc)
             if v == "Specific":
                 body_atoms = pv.atoms(body)
                 ok = has_field(body_atoms, "nitrogql_ast::operation::FragmentDefinition", "name") and has_field(body_atoms, "nitrogql_ast::base::Ident", "name")
@@ -878,20 +948,26 @@ def r13e(P, R):
                      "to_uppercase", "to_ascii_lowercase", "to_ascii_uppercase", "replace", "replacen", "file_name", "file_stem", "split",
                      "rsplit", "split_once", "rsplit_once", "trim", "trim_start", "trim_end", "get", "chars", "strip_prefix", "strip_suffix")
         calls = set()
-        todo, seen = [c["args"][0]], set()
+        dropped = set()     # workspace functions on the way to the key that silently discard something
+        todo, seen = [(c["args"][0], None)], set()
         while todo:
-            e = todo.pop()
+            e, inside = todo.pop()
             for y in subnodes(e):
+                if inside and y.get("k") == "Stmt" and (strip(y.get("e")) or {}).get("k") == "MethodCall" \
+                        and strip(y["e"])["method"] in ("pop", "pop_back", "pop_front", "truncate"):
+                    # `stack.pop();` with the result ignored: popping an empty stack is a silent no-op — for a path normaliser fed a
+                    # *relative* spec a leading `..` vanishes
+                    dropped.add("%s (`%s()` with its result ignored)" % (short(inside), strip(y["e"])["method"]))
                 if y.get("k") in ("Call", "MethodCall") and not str(y.get("callee_dk", "")).startswith("Ctor") and "desugar" not in (y.get("x") or ""):
                     cn = call_name(y) or ""
                     calls.add(cn)
                     if "inl" not in y and cn in P.fns and cn not in seen and not P.fns[cn].derived:
                         seen.add(cn)
-                        todo.append(P.fns[cn].body)
+                        todo.append((P.fns[cn].body, cn))
                 if y.get("k") == "Path" and "local" in y and y["local"] not in seen:
                     seen.add(y["local"])
-                    todo.extend(src for src, _ in pv.src.get(y["local"], []) if src is not None)
-        lossy = sorted(short(cn) for cn in calls if cn.split("::")[-1] in LOSSY_KEY and ("str" in cn or "Path" in cn or "String" in cn))
+                    todo.extend((src, inside) for src, _ in pv.src.get(y["local"], []) if src is not None)
+        lossy = sorted(dropped) + sorted(short(cn) for cn in calls if cn.split("::")[-1] in LOSSY_KEY and ("str" in cn or "Path" in cn or "String" in cn))
         other = sorted(short(cn) for cn in calls if cn.split("::")[-1] not in BENIGN and cn.split("::")[-1] not in LOSSY_KEY and cn not in P.fns
                        and not cn.endswith(("Vec<T, A>::remove", "PartialEq::eq")))
         if lossy:
